@@ -101,16 +101,18 @@ def snapshot(e):
         return ('I', id(e), type(e.arg).__name__, e.arg.arg)
     if isinstance(e, X.ExprId):
         return ('D', id(e), e.name, e.size, e.is_term, e.is_reg)
+    # is_term is read by eval_expr ("already a terminal: return as is"): it is part of what the node means to a later call
+    t = bool(e.__dict__.get('is_term', False))
     if isinstance(e, X.ExprMem):
-        return ('M', id(e), e.size, snapshot(e.arg), snapshot(e.segm) if isinstance(e.segm, X.Expr) else e.segm)
+        return ('M', id(e), e.size, snapshot(e.arg), snapshot(e.segm) if isinstance(e.segm, X.Expr) else e.segm, t)
     if isinstance(e, X.ExprOp):
-        return ('O', id(e), e.op, tuple(snapshot(a) for a in e.args))
+        return ('O', id(e), e.op, tuple(snapshot(a) for a in e.args), t)
     if isinstance(e, X.ExprCond):
-        return ('C', id(e), snapshot(e.cond), snapshot(e.src1), snapshot(e.src2))
+        return ('C', id(e), snapshot(e.cond), snapshot(e.src1), snapshot(e.src2), t)
     if isinstance(e, X.ExprSlice):
-        return ('S', id(e), e.start, e.stop, snapshot(e.arg))
+        return ('S', id(e), e.start, e.stop, snapshot(e.arg), t)
     if isinstance(e, X.ExprCompose):
-        return ('P', id(e), tuple((snapshot(a[0]), a[1], a[2]) for a in e.args))
+        return ('P', id(e), tuple((snapshot(a[0]), a[1], a[2]) for a in e.args), t)
     if isinstance(e, X.ExprAff):
         return ('A', id(e), snapshot(e.dst), snapshot(e.src))
     return ('?', id(e))
@@ -426,13 +428,15 @@ elif D['kind'] == 'simp' and D['what'].startswith('memo'):
 else:
     from vf.checks import c12
     print('frame-condition counterexample:', D['what'])
-    e = G.build(shape, consts, X, M); s0 = str(e)
+    c12.X = X
+    e = G.build(shape, consts, X, M); s0 = str(e); f0 = c12.snapshot(e)
     try:
         if D['kind'] == 'simp': H.expr_simp(e)
         elif D['kind'] == 'eval': machine().eval_expr(e, {})
         else: machine().eval_instr([X.ExprAff(X.ExprId('dst', G.width(shape)), e)])
     except Exception as ex: print('call raised', type(ex).__name__)
-    bad = str(e) != s0; print(s0, '->', str(e))
+    f1 = c12.snapshot(e)
+    bad = str(e) != s0 or f1 != f0; print(s0, '->', str(e), '' if f1 == f0 else '(node fields changed, e.g. is_term)')
 print('C12 replay:', 'VIOLATED' if bad else 'holds')
 sys.exit(1 if bad else 0)
 '''
